@@ -449,6 +449,79 @@ func genArena(r *core.Rand, tier string) core.Case {
 	return core.Case{Lines: lines, Tag: "arena"}
 }
 
+// ---------- adversarial salts: the hidden input the caller's random source controls
+
+// advSalts: (secret, salt, d) found offline by a pure-MD5 search: the IV that
+// EVP_BytesToKey(MD5) derives from them (third digest) has its last 32-bit word d blocks below
+// 2^32, so the CTR counter of the stream mode carries out of its last four bytes after d
+// blocks.  (A wrap of the last 64 or 96 bits would need ≈ 2^56 / 2^88 MD5 trials: not
+// reachable through the API; those carries are exercised on the model/stdlib pair by the
+// `ctr` op with hand-made IVs.)
+var advSalts = []struct {
+	secret, salt string
+	d            int
+}{
+	{"", "5b2bafa727db87d2", 15},
+	{"p", "543985efcf0d1eb0", 12},
+	{"correct horse battery staple", "81585e6636fe5690", 23},
+	{"correct horse battery staple", "2989531d055015da", 14},
+	{"correct horse battery staple", "3f06a6bb2315c3fe", 21},
+	{"whaterror", "4cf73ddb2ea6da8e", 10},
+	{"p", "b1c04b17b743a368", 5},
+	{"", "c5479be4f9420b36", 3},
+	{"correct horse battery staple", "f51d52870fd7653c", 15},
+	{"p", "0dc88014827b60f2", 5},
+	{"", "a25d43acf021dc4c", 19},
+	{"p", "76958bb09972bd5e", 1},
+	{"", "23fc8eb33992bda0", 6},
+	{"whaterror", "7e14cd1eb36f13bc", 8},
+}
+
+func advSalt(i int) (secret, salt []byte, d int) {
+	a := advSalts[i%len(advSalts)]
+	salt, _ = hex.DecodeString(a.salt)
+	return []byte(a.secret), salt, a.d
+}
+
+// genAdversarial: stream-mode calls whose keystream crosses the 32-bit carry of the counter
+// (plaintext of d+1 .. d+70 blocks), any reader chunking, both directions and the round trip
+// through the real random source replaced by the chosen salt; plus `ctr` lines: the model's
+// keystream against crypto/cipher for IVs whose last 4 / 8 / 12 / 16 bytes are about to wrap.
+func genAdversarial(r *core.Rand, tier string) core.Case {
+	lines := []string{"@ C09 x"}
+	n := r.Range(1, 2)
+	for i := 0; i < n; i++ {
+		secret, salt, d := advSalt(r.Intn(len(advSalts)))
+		blocks := d + r.Range(1, 70)
+		if tier != "thorough" && blocks > d+12 {
+			blocks = d + r.Range(1, 12) // the Lean AES is slow: keep the quick stream short
+		}
+		pt := r.Bytes(16*blocks - r.Intn(16))
+		ty := genTy(r)
+		switch r.Pick(35, 35, 30) {
+		case 0:
+			src := "w"
+			if r.Bool() {
+				src = genReader(r, len(pt), 0)
+			}
+			lines = append(lines, fmt.Sprintf("enc-stream %s %s %s %s - %s", ty, hx(salt), hx(secret), src, hx(pt)))
+		case 1:
+			lines = append(lines, fmt.Sprintf("dec-stream %s %s %s - %s", ty, hx(secret), genReader(r, 16+len(pt), 0), hx(refStream(salt, secret, pt))))
+		case 2:
+			key := r.Bytes([]int{16, 24, 32}[r.Intn(3)])
+			iv := r.Bytes(16)
+			k := []int{4, 8, 12, 16}[r.Intn(4)]
+			for j := 16 - k; j < 16; j++ {
+				iv[j] = 0xff
+			}
+			back := r.Intn(4)
+			iv[15] -= byte(back)
+			lines = append(lines, fmt.Sprintf("ctr %s %s %d", hx(key), hx(iv), 16*(back+2)+r.Intn(16)))
+		}
+	}
+	return core.Case{Lines: lines, Tag: "adversarial"}
+}
+
 // ---------- magnitude stream: every length in a window
 
 // block boundaries up to 208: 16k-1, 16k, 16k+1
@@ -496,6 +569,8 @@ func genMagnitude(r *core.Rand, tier string) core.Case {
 
 func gen(r *core.Rand, tier string) core.Case {
 	switch {
+	case r.Chance(6):
+		return genAdversarial(r, tier)
 	case r.Chance(10):
 		return genHist(r, tier)
 	case r.Chance(12):
@@ -714,6 +789,29 @@ func corpus() []core.Case {
 			fmt.Sprintf("raw-dec-gcm %d bb %s 6164 %s", v%2, hx(h2), hx(refGCMEnvelope(sv, h2, []byte("ad"), p))),
 			fmt.Sprintf("dec-stream bb %s g:-:1:0 - %s", hx(h2), hx(refStream(sv, h2, p)))}, Tag: "arena"})
 	}
+	// ADVERSARIAL SALTS, enumerated: every (secret, salt) of the table, plaintext = d + 3 blocks (the
+	// counter's last word wraps inside the stream), encrypt and decrypt; secret lengths around the
+	// 1 KiB / 2 KiB scratch sizes (+ the 16 bytes of the previous digest, + the 8 bytes of salt)
+	for i := range advSalts {
+		sec, sl, d := advSalt(i)
+		p := seqBytes(16*(d+3)+5, byte(i))
+		cs = append(cs, core.Case{Lines: []string{"@ C09 x",
+			fmt.Sprintf("enc-stream bb %s %s w - %s", hx(sl), hx(sec), hx(p)),
+			fmt.Sprintf("dec-stream sb %s g:-:1:0 - %s", hx(sec), hx(refStream(sl, sec, p)))}, Tag: "adversarial"})
+	}
+	ls = nil
+	for _, iv := range []string{"000000000000000000000000ffffffff", "0000000000000000fffffffffffffffe", "00000000ffffffffffffffffffffffff",
+		"ffffffffffffffffffffffffffffffff", "fffffffffffffffffffffffffffffffd", "0123456789abcdef00000000fffffffe"} {
+		ls = append(ls, fmt.Sprintf("ctr %s %s 70", hx(seqBytes(32, 1)), iv), fmt.Sprintf("ctr %s %s 33", hx(seqBytes(16, 2)), iv))
+	}
+	ls = append(ls, "ctr "+hx(seqBytes(24, 3))+" 00000000000000000000000000000000 0", "ctr "+hx(seqBytes(17, 3))+" 00000000000000000000000000000000 16",
+		"ctr "+hx(seqBytes(16, 3))+" 000000000000000000000000000000 16")
+	add(ls...)
+	ls = nil
+	for _, n := range []int{1000, 1001, 1008, 1009, 1016, 1017, 1024, 1025, 2024, 2025, 2040, 2041, 2048, 2049} {
+		ls = append(ls, fmt.Sprintf("enc-cbc bb %s %s 00", hx(salt), hx(seqBytes(n, byte(n)))))
+	}
+	add(ls...)
 	// OpenSSL: `printf 'hello' | openssl enc -aes-256-cbc -md md5 -a -pass pass:whaterror -S a1a2a3a4a5a6a7a8`
 	// produces this message (salt a1..a8): checked against the reference derivation at start-up
 	return cs
